@@ -18,7 +18,8 @@ the await-free segments of `function.py`:
                       `if kill_me and unique_name_used(..): return False` else `task_unique(name)`
 
 The legacy `@task_unique` is two steps (`unique_name_used` inside the trigger loop's `call_action`, then
-`task_unique(name)` as first segment of the new task) and is therefore expressed with `nameUsed` + `spawn` + `unique`.
+`task_unique(name, kill_me=…)` as first segment of the new task – `decoLegacyStep`, a `unique` step) and is therefore
+expressed with `nameUsed` + `spawn` + `unique`.
 
 The maps are function valued (`upd` = dictionary store); `names`/`entry` together are `unique_task2name`
 (`entry t` = "t is a key of the dict", `names t` = the set, kept duplicate free as a list).
@@ -157,6 +158,20 @@ def decoRuns (s : St κ) (k : κ) (km : Bool) : Bool := !(km && nameUsed s k)
 /-- `TaskUniqueDecorator.handle_call` -/
 def decoNewStep (s : St κ) (t : Task) (k : κ) (km : Bool) : St κ :=
   if decoRuns s k km then uniqueStep s t k false else s
+
+/-- deviation flag (DESIGN §4) for the legacy `@task_unique`: `legacyClaimKillMe = true` (`current`) is /repo a7d4ccd –
+`do_func_call` passes the decorator's `kill_me` on to the claim, `await task_unique_func(name, **kwargs)`;
+`false` (`preFix`) is the earlier code, which claimed with `task_unique_func(name)` after the dispatcher's check. -/
+structure Cfg where
+  legacyClaimKillMe : Bool
+
+def current : Cfg := { legacyClaimKillMe := true }
+def preFix : Cfg := { legacyClaimKillMe := false }
+
+/-- legacy `@task_unique`: first segment of the task that `call_action` created (the dispatcher's
+`unique_name_used` check is `nameUsed` in the state in which the trigger loop ran) -/
+def decoLegacyStep (cfg : Cfg) (s : St κ) (t : Task) (k : κ) (km : Bool) : St κ :=
+  uniqueStep s t k (cfg.legacyClaimKillMe && km)
 
 def step (s : St κ) : Op κ → St κ
   | .spawn t fg => spawnStep s t fg
